@@ -123,3 +123,7 @@ def trusted_base(prop):
 def assumptions(prop):
     return ["children are created by the parent's own target (no registration under a thread whose target has returned)",
             "targets terminate once asked to stop; exceptions derive from Exception"]
+
+
+for _k in list(RULE):      # RULE-EXTRA: what was added to the exploration after the rounds of seeded changes
+    RULE[_k] += "; plus: joins by non-parents, registrations gated on a sibling's end, shutdown hooks starting a thread under main, joins 61-125 s after the end (the sixty seconds of an unjoined thread), a child that takes more than ten minutes, orphans that fail, line-mode jobs; every access to `children` without child_locker is a pre-emption point"
